@@ -106,13 +106,10 @@ Corollary C07_roundtrip_contract : forall fo A g tr start,
   ring_contract g (dfs_tree g) tr = true ->
   (forall k, In k (node_keys g) -> name_ok fo (name_of g k) = true) ->
   (forall k, parse_graph_base_node fo (name_of g k) = Ok (A k)) ->
-  exists T, rkey T = start /\ dfs_edges g start = Ok (redges T) /\ NoDup (rkeys T)
-    /\ (forall x, In x (rkeys T) <-> In x (node_keys g))
-    /\ (rings_plain (the_items (name_of g) (esym_of g) (rsym_of g tr) T tr) = true ->
-        exists s h, write_cgsmiles_graph g tr = Ok s /\ read_cgsmiles fo s = Ok h /\ graph_iso A g h).
+  exists s h, write_cgsmiles_graph g tr = Ok s /\ read_cgsmiles fo s = Ok h /\ graph_iso A g h.
 Proof.
   intros fo A g tr start Hp Hcon Hmin Hrc Hok Hparse.
   assert (Hwf : graph_wf g = true) by (unfold plain_graph in Hp; now apply andb_prop in Hp as [H _]).
   destruct (ring_contract_props g tr Hwf Hrc) as (R1 & R2 & R3 & R4).
-  now apply C07_roundtrip.
+  now apply (C07_roundtrip fo A g tr start).
 Qed.
